@@ -20,34 +20,39 @@ package locRIB
 //@ locklevel LocRIB.mu 20
 
 //@ contract (*LocRIB).Dump, (*LocRIB).UpdateNewClient, (*LocRIB).RefreshClient, (*LocRIB).AddPath, (*LocRIB).RemovePath, (*LocRIB).ReplacePath, (*LocRIB).ContainsPfxPath, (*LocRIB).String, (*LocRIB).Print, (*LocRIB).AddPathInitialDump
-//@   props C25
+//@   props C25 C26
 //@   nosafety
 //@   acquires 20
 //@   locks C25
+//@   guards C26
 
 // Called with the Loc-RIB's write lock held.
 //@ contract (*LocRIB).propagateChanges, (*LocRIB).addPathsToClients, (*LocRIB).removePathsFromClients
-//@   props C25
+//@   props C25 C26
 //@   nosafety
 //@   requires verif_wheld(&a.mu)
 //@   acquires 21
 //@   locks C25
+//@   guards C26
 
 // Registration tells the new client the table's content (under the read lock).
 //@ contract (*LocRIB).Register, (*LocRIB).RegisterWithOptions
-//@   props C25
+//@   props C25 C26
 //@   nosafety
 //@   acquires 10
 //@   locks C25
+//@   guards C26
 
 //@ contract (*LocRIB).Unregister, (*LocRIB).ClientCount, (*LocRIB).Dispose
-//@   props C25
+//@   props C25 C26
 //@   nosafety
 //@   acquires 21
 //@   locks C25
+//@   guards C26
 
 //@ contract (*LocRIB).LPM, (*LocRIB).Get, (*LocRIB).GetLonger
-//@   props C25
+//@   props C25 C26
 //@   nosafety
 //@   acquires 80
 //@   locks C25
+//@   guards C26
